@@ -104,8 +104,13 @@ package server
 // the server clock (seconds since the epoch) is far from the int64 range: assumed at the start of every section
 //@ spec func clockSane(db) = db != nil && db.currentTime >= 0 && db.currentTime < 0x10000000000 && db.checkTimeoutTime >= 0 && db.checkTimeoutTime < 0x10000000000 && db.checkExpriedTime >= 0 && db.checkExpriedTime < 0x10000000000
 
-// seconds added to "now" by an expiry / timeout value under its unit flags (README: 0x0040 minute, 0x0400 millisecond)
-//@ spec func unitSeconds(v, flag) = ite(flag&0x0400 != 0, v / 1000, ite(flag&0x0040 != 0, v*60, v))
+// whole seconds that cover an expiry / timeout value under its unit flags (README: 0x0040 minute, 0x0400 millisecond):
+// the property speaks of "no earlier than", so a millisecond value is rounded UP to whole seconds (rounding down
+// ended holds and waits of 3000 ms and more up to a second early - repaired defect)
+//@ spec func unitSeconds(v, flag) = ite(flag&0x0400 != 0, (v + 999) / 1000, ite(flag&0x0040 != 0, v*60, v))
+// the statement itself, in thousandths of a second: a deadline d set in server second `now` (which may already have
+// almost passed) is not early for the value v when the whole seconds strictly between them cover v
+//@ spec func notEarly(d, now, v, flag) = ite(flag&0x0400 != 0, (d - now - 1) * 1000 >= v, ite(flag&0x0040 != 0, d - now - 1 >= v * 60, d - now - 1 >= v))
 //@ spec func expriedDeadline(now, cmd) = ite(cmd.ExpriedFlag&0x4000 != 0, 0x7fffffffffffffff, now + unitSeconds(cmd.Expried, cmd.ExpriedFlag) + 1)
 //@ spec func timeoutDeadline(now, cmd) = now + unitSeconds(cmd.Timeout, cmd.TimeoutFlag) + 1
 
@@ -189,6 +194,7 @@ package server
 //@   ensures C01.grant.depth,C02.grant.depth,C17.grant.depth: lock.locked == 1 && result == lock
 //@   ensures lock.refCount == u8(old(lock.refCount) + 1)
 //@   ensures C01.grant.oldest: self.currentLock == ite(old(self.currentLock) == nil, lock, old(self.currentLock))
+//@   ensures C06.grant.not-early: implies(lock.command.TimeoutFlag&0x0100 == 0 && lock.command.ExpriedFlag&0x4000 == 0 && clockSane(self.lockDb), notEarly(lock.expriedTime, self.lockDb.currentTime, lock.command.Expried, lock.command.ExpriedFlag))
 //@   ensures C06.grant.deadline: implies(lock.command.TimeoutFlag&0x0100 == 0, lock.startTime == self.lockDb.currentTime && lock.expriedTime == i64(expriedDeadline(self.lockDb.currentTime, lock.command)))
 //@   ensures C06.grant.unrenew: implies(lock.command.TimeoutFlag&0x0100 != 0, lock.startTime == old(lock.startTime) && lock.expriedTime == old(lock.expriedTime))
 //@   ensures C07.grant.aoftime: implies(old(self.currentLock) == nil && lock.command.ExpriedFlag&0x1300 == 0x0100, lock.aofTime == 0) && implies(old(self.currentLock) == nil && lock.command.ExpriedFlag&0x1300 == 0x0200, lock.aofTime == 0xff) && implies(old(self.currentLock) != nil, lock.aofTime == old(self.currentLock.aofTime))
@@ -231,6 +237,8 @@ package server
 //@ func (*LockManager).UpdateLockedLock
 //@   requires self != nil && lock != nil && command != nil && self.lockDb != nil
 //@   ensures C03.update.command,C19.update.command: lock.command == command && result == old(lock.command)
+//@   ensures C06.update.not-early: implies(command.ExpriedFlag&0x4000 == 0 && clockSane(self.lockDb), notEarly(lock.expriedTime, self.lockDb.currentTime, command.Expried, command.ExpriedFlag))
+//@   ensures C05.update.not-early: implies((command.ExpriedFlag&0x4000 == 0 || command.Expried < 0xffff) && clockSane(self.lockDb), notEarly(lock.timeoutTime, self.lockDb.currentTime, command.Timeout, command.TimeoutFlag))
 //@   ensures C06.update.restart: implies(command.ExpriedFlag&0x4000 == 0 || command.Expried < 0xffff, lock.startTime == self.lockDb.currentTime && lock.expriedTime == i64(expriedDeadline(self.lockDb.currentTime, command)) && lock.timeoutTime == i64(timeoutDeadline(self.lockDb.currentTime, command)))
 //@   ensures C06.update.keep: implies(command.ExpriedFlag&0x4000 != 0 && command.Expried == 0xffff, lock.startTime == old(lock.startTime) && lock.expriedTime == old(lock.expriedTime))
 //@   ensures otherLocksSame(lock)
@@ -241,6 +249,7 @@ package server
 //@ func (*LockManager).GetOrNewLock
 //@   requires self != nil && command != nil && self.freeLocks != nil && self.lockDb != nil
 //@   ensures result != nil && result.manager == self && result.command == command
+//@   ensures C05.deadline.not-early: implies(clockSane(self.lockDb), notEarly(result.timeoutTime, self.lockDb.currentTime, command.Timeout, command.TimeoutFlag))
 //@   ensures C05.deadline: result.timeoutTime == i64(timeoutDeadline(self.lockDb.currentTime, command)) && result.startTime == self.lockDb.currentTime
 //@   ensures C05.fresh: result.timeoutCheckedCount == 1 && result.longWaitIndex == 0
 //@   ensures C06.unrenew.deadline: implies(command.TimeoutFlag&0x0100 != 0, result.expriedTime == i64(expriedDeadline(self.lockDb.currentTime, command)))
